@@ -438,7 +438,7 @@ def _proc_src():
             x[i] = 0.0
             if i < 4:
                 x[i] = 1.0
-                y[i] = x[i] + 1.0
+                y[i] = (x[i] + 1.0) + (y[i] + x[i])
             else:
                 x[i] = 2.0
                 for j in seq(0, 2):
@@ -571,15 +571,42 @@ def _(g):
             "__ghost__": {"raw": raw, "shape": shape}}
 
 
+def _mp_stub_result(g, a):
+    g.ghost["mp_default"] = a.default_match_no
+    return list(g.ghost["raw"])
+
+
 c_apif.callee("match_pattern",
-              result=lambda g, a: list(g.ghost["raw"]),
-              requires=lambda a: a.default_match_no == (None if a.g_many else 0) if hasattr(a, "g_many") else
-              (a.default_match_no is None or a.default_match_no == 0),
+              result=_mp_stub_result,
               assumed=True,
               note="match_pattern(scope, pattern, default_match_no) returns the raw cursors of all matches "
                    "(default None) or of the selected match (PatternMatch.find contract + regex engine)")
 
 from exo.rewrite.LoopIR_scheduling import SchedulingError as _SE
+
+
+def _native_api_find(g, fn, a):
+    """replay: the real `find` with match_pattern replaced by the same stub"""
+    def stub(scope, pattern, call_depth=1, default_match_no=None, use_sym_id=False):
+        g.ghost["mp_default"] = default_match_no
+        return list(g.ghost["raw"])
+    old = PC.match_pattern
+    PC.match_pattern = stub
+    try:
+        return fn(a.scope, a.proc, a.pattern, a.many)
+    finally:
+        PC.match_pattern = old
+
+
+c_apif.native_entry = _native_api_find
+
+
+@c_apif.ensures("match_pattern is asked for all matches with `many`, else for the first one")
+def _(a):
+    return a.g.ghost.get("mp_default", "unset") == (None if a.many else 0)
+
+c_apif.ensures_on_raise("match_pattern is asked for all matches with `many`, else for the first one (error exit)")(
+    lambda a: a.g.ghost.get("mp_default", "unset") == (None if a.many else 0))
 
 c_apif.raises(_SE, when=lambda a: a.ghost.shape == "none", label="SchedulingError exactly when there is no match")
 
